@@ -587,8 +587,11 @@ class _:
     def requires_phase_valid(playing_phase):
         return pp_inv(playing_phase)
 
-    def requires_hand_not_empty(hand):
-        return len(hand) > 0
+    raises = {IndexError: 'iff'}
+
+    # (nothing to choose from an empty hand: random.choice raises)
+    def raises_IndexError(hand):
+        return len(hand) == 0
 
     # C06: the bundled example player only ever chooses a playable card
     def ensures_chooses_a_playable_card(hand, playing_phase, result):
